@@ -651,6 +651,9 @@ func refProofCheck(k *spi.Keys, c *ref.Committee, inst uint64, block *spi.Blk, p
 		}
 		ids = append(ids, id)
 	}
+	if c.W.Sign() == 0 {
+		return "committee-without-weight" // nobody can certify anything
+	}
 	if soft {
 		if !c.AboveF(ids) {
 			return "weight-not-above-f"
